@@ -170,10 +170,18 @@ def gen(rng, tier, props=("C04",)):
             end_queue = end_queue[:60]
         if is_scaled():
             end_queue = end_queue[:12]
+        # structured stream: a strided_slice whose stride EQUALS its extent (one selected element: the sub-stride is the source stride, no
+        # product is formed) over a layout_stride dimension whose stride is near imax / 2: an implementation that multiplies there overflows
+        for t_ in ([4, 4, 6, 0, 2, 5] if not is_scaled() else [4]):
+            for R_ in (1, 2):
+                end_queue.append(("EQ", t_, R_, rng.choice([2, 2, 3])))
     while (len(progs) < nprog or end_queue) and tries < nprog * 40 + 4000:
         tries += 1
         endspec = end_queue.pop() if end_queue else None
-        forced = pair_queue.pop() if (pair_queue and endspec is None) else None
+        eqspec = None
+        if endspec is not None and endspec[0] == "EQ":
+            eqspec, endspec = endspec, None
+        forced = pair_queue.pop() if (pair_queue and endspec is None and eqspec is None) else None
         t = rng.randrange(8)
         T = CTYPES[t]
         M = imax(t)
@@ -183,10 +191,14 @@ def gen(rng, tier, props=("C04",)):
         big = rng.random() < 0.12
         if endspec is not None:
             lay = endspec[0]; R = 2; boundary = False; big = False
+        if eqspec is not None:
+            t = eqspec[1]; T = CTYPES[t]; M = imax(t); lay = 2; R = eqspec[2]; boundary = False; big = False
         if forced is not None:
             lay, fk = forced
             R = len(fk); boundary = False; big = False
-        if big:
+        if eqspec is not None:
+            es = [eqspec[3]] + [3] * (R - 1)
+        elif big:
             # shapes near the representability boundary: one long dimension
             Mb = min(M, 1 << 40)                  # element addresses must stay representable as pointer differences
             es = [1] * R; es[rng.randrange(R)] = rng.choice([Mb, Mb // 2, Mb - 1])
@@ -210,7 +222,14 @@ def gen(rng, tier, props=("C04",)):
             es = [rng.choice([0, 1, 2, 3, 4, 5]) if rng.random() < 0.9 else rng.choice([7, 11]) for _ in range(R)]
         if prod1(es) > M:
             continue
-        if lay == 2:
+        if eqspec is not None:
+            x_ = eqspec[3]
+            s0 = (M - 3) // x_ + 1                     # s0 * x_ > imax, while the span 1 + (x_ - 1) * s0 + 2 stays representable
+            if s0 < 4 or 1 + (x_ - 1) * s0 + 2 > M:
+                continue
+            ss = [s0] + [1] * (R - 1)
+            src = MV(Inst(t, 2, DYN, tuple([DYN] * R)), 1, es, ss)
+        elif lay == 2:
             sts = mapgen.stride_tuples(rng, t, es, 4)
             if not sts:
                 continue
@@ -225,6 +244,9 @@ def gen(rng, tier, props=("C04",)):
             nlev = 1
         cur_es, cur_st = list(es), list(src.strides)
         levels, ok = [], True
+        if eqspec is not None:
+            nlev = 0
+            levels = [[Sl("S", "%s, %s, %s" % (T, T, T), [0, eqspec[3], eqspec[3]], mask=0)] + [rng.choice([Sl("F", "", []), Sl("I", T, [1], u=2)]) for _ in range(R - 1)]]
         if endspec is not None:
             nlev = 0
             _, ek, ok_, pos = endspec
@@ -319,6 +341,8 @@ def gen(rng, tier, props=("C04",)):
             hist["kind-pair stream"] += 1
         if endspec is not None:
             hist["end-empty slice x non-zero begin stream"] += 1
+        if eqspec is not None:
+            hist["strided slice with stride == extent over a near-max source stride"] += 1
         if boundary:
             hist["boundary"] += 1
         if big:
